@@ -349,6 +349,25 @@ def setFilenameReplace(dictionary_of_search_replace_tags_for_filename, desired_t
 '''------------------------------------------------------------------------------------------------------'''
 
 
+def writeFileAtomically(filename, lines) -> None:
+    """
+    Write to a temporary file next to the target and rename it over the target, so that
+    an interrupted run never leaves an existing file (and the user code in it) truncated.
+    """
+    tmpfilename = filename + ".kojen-tmp"
+    try:
+        with open(tmpfilename, 'w', errors='surrogateescape') as writer:
+            for line in lines:
+                writer.write(line)
+        if os.path.exists(filename):
+            shutil.copymode(filename, tmpfilename)
+        os.replace(tmpfilename, filename)
+    except BaseException:
+        if os.path.exists(tmpfilename):
+            os.remove(tmpfilename)
+        raise
+
+
 class CGenerator:
 
     def __init__(self, inputfiledir, outputfiledir, language=None, author='Anonymous', group='', brief='',namespace_to_folders = False):
@@ -609,10 +628,8 @@ class CGenerator:
             print("+++++++++ ", f)
             filename = os.path.join(self.output_gen_file_dir, f)
             os.makedirs(os.path.dirname(filename), exist_ok=True)
-            with open(filename, 'w', errors='surrogateescape') as writer:
-                for line in filenames_to_lines[f]:
-                    line = line.replace('\t',"    ") # Last filter! Convert tabs to 4 spaces...
-                    writer.write(line)
+            # Last filter! Convert tabs to 4 spaces...
+            writeFileAtomically(filename, [line.replace('\t',"    ") for line in filenames_to_lines[f]])
         return list(filenames_to_lines.keys())
 
 
